@@ -1,2 +1,3 @@
+pub mod c07;
 pub mod c02;
 pub mod c13;
